@@ -9,6 +9,9 @@ import JanetModel.Lib.KmpProofs
 import JanetModel.Lib.SortProofs
 import JanetModel.Lib.RangeProofs
 import JanetModel.Lib.FormatProofs
+import JanetModel.Lib.StrKmpCProofs
+import JanetModel.Lib.StrJoinCProofs
+import JanetModel.Lib.StrMiscCProofs
 namespace JanetModel.Props.C17
 open JanetModel.Lib JanetModel.Gen.Lib
 
@@ -59,9 +62,10 @@ example : slice [10, 20, 30, 40] (some (-3)) (some (-1)) = some [30, 40] := by d
     contents the buffer had *before* it grew.  `pushSelfGuard` is extracted from buffer.c: if the guard disappears this
     theorem no longer type-checks (see the `example` below for what then happens). -/
 theorem buffer_push_self_alias_safe (b : BufMem.Buf) (bs : List Nat) (h : BufMem.contents b = some bs) :
-    ∃ b', BufMem.pushSelf pushSelfGuard b = some b' ∧ BufMem.contents b' = some (bs ++ bs)
+    ∃ b', BufMem.pushSelf pushSelfGuard b pushSelfViaExtra = some b' ∧ BufMem.contents b' = some (bs ++ bs)
           ∧ bufferPush bs [PushArg.self] = some (bs ++ bs) := by
-  obtain ⟨b', h1, h2⟩ := BufMem.pushSelf_guard_safe (BufMem.holds_of_contents h)
+  -- `pushSelfViaExtra` (Gen): which of the two accepted guard shapes the current buffer.c uses
+  obtain ⟨b', h1, h2⟩ := BufMem.pushSelf_guard_safe_any pushSelfViaExtra (BufMem.holds_of_contents h)
   exact ⟨b', h1, BufMem.contents_of_holds h2, bufferPush_self bs⟩
 
 /-- `(buffer/blit b b od os oe)`: defined, and equal to the list-level definition evaluated on the old contents. -/
@@ -261,5 +265,76 @@ example : Sort.sort (fun a b => decide (a ≤ b)) (fun a b => decide (a % 4 < b 
     = .ok #[4, 5, 1, 1, 2, 3] := by decide
 /-- a non-strict comparator makes the real code recurse without bound; the model reports fuel exhaustion -/
 example : Sort.sort (fun a b => decide (a ≤ b)) (fun a b => decide (a ≥ b)) #[2, 8, -8] = .fuel := by decide
+
+/-! ### ★★ the C code itself: mirrors of string.c (Lib/StrC.lean, loop by loop) compute the reference definitions
+
+   Each mirror returns `R.ok v` / `R.panic` (janet error) / `R.ub` (the C would execute undefined behaviour: out-of-range
+   index, signed overflow, negative copy size, shift ≥ width).  An equation `mirror = .ok (Spec …)` / `= R.ofOption (Spec …)`
+   therefore says: same value for ALL inputs, an error exactly where the C raises, and never UB.  The source text each
+   mirror was transcribed from is compared with the current tree by the theorems of Lib/SrcTie.lean on every run. -/
+
+/-- `trim_help_checkset` / `trim_help_leftedge` / `trim_help_rightedge` (early-return scans, the right one downwards) -/
+theorem mirror_trim_edges (s set : Bytes) (x : Nat) :
+    StrC.checkset set x = .ok (inSet set x) ∧
+    StrC.leftedge s set = .ok ((leftEdge s set : Nat) : Int) ∧
+    StrC.rightedge s set = .ok ((rightEdge s set : Nat) : Int) :=
+  ⟨StrC.checkset_spec set x, StrC.leftedge_spec s set, StrC.rightedge_spec s set⟩
+
+/-- `string/trim`, `string/triml`, `string/trimr` for every string and every (default or custom) set -/
+theorem mirror_trim (s set : Bytes) :
+    StrC.trim s set = .ok (trim s set) ∧ StrC.triml s set = .ok (triml s set) ∧ StrC.trimr s set = .ok (trimr s set) :=
+  ⟨StrC.trim_eq_spec s set, StrC.triml_eq_spec s set, StrC.trimr_eq_spec s set⟩
+
+/-- `string/reverse` (two counters), `string/ascii-lower/upper` (the uint8 store does not wrap), `string/bytes` -/
+theorem mirror_reverse_case_bytes (s : Bytes) :
+    StrC.reverse s = .ok s.reverse ∧ StrC.asciiLower s = .ok (asciiLower s) ∧ StrC.asciiUpper s = .ok (asciiUpper s) ∧
+    StrC.bytes s = .ok (s.map (fun (c : Nat) => (c : Int))) :=
+  ⟨StrC.reverse_eq_spec s, StrC.asciiLower_eq_spec s, StrC.asciiUpper_eq_spec s, StrC.bytes_eq_spec s⟩
+
+/-- `string/has-prefix?` / `string/has-suffix?` (length guard + `memcmp` as a byte loop that never reads outside) -/
+theorem mirror_prefix_suffix (p s : Bytes) :
+    StrC.hasPrefix p s = .ok (hasPrefix p s) ∧ StrC.hasSuffix p s = .ok (hasSuffix p s) :=
+  ⟨StrC.hasPrefix_eq_spec p s, StrC.hasSuffix_eq_spec p s⟩
+
+/-- `string/slice` = `janet_getslice` decode + `janet_stringv` copy: error iff the decode fails, never out of bounds -/
+theorem mirror_string_slice (s : Bytes) (st en : Option Int) : StrC.slice s st en = R.ofOption (slice s st en) :=
+  StrC.slice_eq_spec s st en
+
+/-- `string/repeat`: errors for `n < 0` and `n * len > INT32_MAX` (int64 product cannot overflow), else `n` copies -/
+theorem mirror_repeat (s : Bytes) (rep : Int) (hs : Len32 s) (hr : in32 rep = true) :
+    StrC.repeatStr s rep = R.ofOption (repeatBytes s rep) := StrC.repeat_eq_spec s rep hs hr
+
+/-- `string/check-set` through the real `uint32_t bitset[8]` (`>> 5`, `& 0x1F`, `(uint32_t)1 << k`) -/
+theorem mirror_checkset (set s : Bytes) (hset : ∀ c ∈ set, c < 256) (hs : ∀ c ∈ s, c < 256) :
+    StrC.checkSet set s = .ok (checkSet set s) := StrC.checkSet_eq_spec set s hset hs
+
+/-- `string/find` and `string/find-all` at cfun level (`findsetup`: negative start / empty pattern raise; a start beyond the
+    end gives nil / @[]; the find-all loop terminates within `textlen + 2` calls of `kmp_next`) -/
+theorem mirror_find (pat text : Bytes) (start : Option Int) :
+    (StrC.find pat text start = match StrC.startNat start with
+      | none => .panic
+      | some st => R.ofOption (find pat text st)) ∧
+    (StrC.findAll pat text start = match StrC.startNat start with
+      | none => .panic
+      | some st => if pat = [] then .panic else .ok (findAll pat text st)) :=
+  ⟨StrC.find_eq_spec pat text start, StrC.findAll_eq_spec pat text start⟩
+
+/-- `string/split` with start and limit, for EVERY int32 limit: the short-circuit `(limit < 0 || --limit)` never
+    decrements a negative limit, so no signed overflow (`.ub`) — with the unguarded `--limit` of the pinned tree the
+    mirror is `.ub` for `limit = -2147483648` and this theorem cannot be proved. -/
+theorem mirror_split (pat text : Bytes) (start limit : Option Int) (h32 : in32 (limit.getD (-1)) = true) :
+    StrC.split pat text start limit = match StrC.startNat start with
+      | none => .panic
+      | some st => R.ofOption (split pat text st (limit.getD (-1))) :=
+  StrC.split_eq_spec pat text start limit h32
+
+/-- `string/join`: separator placement, the int64 length accumulator (never overflows) and its INT32_MAX check (raises
+    iff the result would be too long), the moving output pointer (every memcpy inside the result buffer) -/
+theorem mirror_join (parts : List Bytes) (sep : Bytes) (hsep : Len32 sep) (hp : ∀ p ∈ parts, Len32 p) :
+    StrC.join parts sep = if ((join parts sep).length : Int) ≤ int32Max then .ok (join parts sep) else .panic :=
+  StrC.join_eq_spec parts sep hsep hp
+
+example : StrC.split [44] [97, 44, 98, 44, 99] none (some 2) = .ok [[97], [98, 44, 99]] := by decide
+example : StrC.join [[97], [98]] [45, 45] = .ok [97, 45, 45, 98] ∧ StrC.trim [32, 97, 32] trimSet = .ok [97] := by decide
 
 end JanetModel.Props.C17
